@@ -35,6 +35,8 @@ SHORT = [
     ((16, b"x", b"XYXZ"), b"aXYXYXZb"), ((16, b"x", b"\n\r\nEND\r\n"), b"1\nh|i|p\n\r\nEND\r\n"),
     ((3, b"k", None), b"\r\n\r\nEND\r\n"), ((9, b"k", False), b"ERROR\r\n"), ((15,), b"\rVERSION\r\r\n"),
     ((10, False, [b"a", b"b"], False), b"DELETED\r\nX\r\n"),
+    # a raw_command reply whose BODY has lines that begin with the protocol's error words (only the start of the reply means an error)
+    ((16, b"x", b"\r\nEND\r\n"), b"a\r\nERROR b\r\nSERVER_ERROR c\r\nCLIENT_ERROR d\r\nEND\r\n"),
     # raw_command with an end token of ONE byte
     ((16, b"verbosity 1", b"\n"), b"OK\r\n"), ((16, b"x", b"D"), b"abcD"), ((16, b"x", b"\r"), b"one two\r"),
 ]
